@@ -36,9 +36,9 @@ Proof. exact committed_distinct. Qed.
 Print Assumptions C06_committed_distinct.
 
 Theorem C06_exactly_once_distinct_ids :
-  forall (mt : nat -> N -> bool) (cap : nat) (tracking persistent : bool) reqs pubs sched i s,
+  forall (mt : nat -> N -> bool) (cap : nat) (tracking persistent : bool) size reqs pubs sched i s,
   NoDup (concat pubs) -> (forall u, In u (concat pubs) -> u < EVB) ->
-  nth_error (h_subs (w_st (wrun mt cap tracking (winit persistent 0 reqs pubs) sched))) i = Some s ->
+  nth_error (h_subs (w_st (wrun mt cap tracking (winit persistent size reqs pubs) sched))) i = Some s ->
   NoDup (hs_sent s) /\ NoDup (hs_recvd s).
 Proof. exact exactly_once_distinct. Qed.
 Print Assumptions C06_exactly_once_distinct_ids.
@@ -59,6 +59,16 @@ Theorem C06_stored_order_is_commit_order :
   h_db st = entries_from 1 (h_committed st) /\ h_seq st = N.of_nat (length (h_committed st)).
 Proof. exact stored_order_is_commit_order. Qed.
 Print Assumptions C06_stored_order_is_commit_order.
+
+(* with bounded retention the stored history is the retained suffix of the commit order (dropped st entries have been
+   removed from its front), entry k still at sequence number k, and it always contains the newest update *)
+Theorem C06_stored_order_with_retention :
+  forall (mt : nat -> N -> bool) (cap : nat) (tracking : bool) size reqs pubs sched,
+  let st := w_st (wrun mt cap tracking (winit true size reqs pubs) sched) in
+  h_db st = entries_from (N.of_nat (dropped st) + 1) (skipn (dropped st) (h_committed st)) /\
+  h_seq st = N.of_nat (length (h_committed st)) /\ (h_committed st <> [] -> (dropped st < length (h_committed st))%nat).
+Proof. exact stored_order_is_commit_order_retention. Qed.
+Print Assumptions C06_stored_order_with_retention.
 
 (* the order is append-only and respects real time: an update whose publish was acknowledged before another one
    was committed precedes it, in every later state (both transports, any retention) *)
